@@ -26,6 +26,30 @@ def parseAcd (s : String) : Option (Option (Bytes × Bytes × Bytes)) :=
     | _, _, _ => none
   | _ => none
 
+/-- named flags -> byte, with the regenerated constants (model) or the WebAuthn bit positions (Spec) -/
+def flagByte (names : String) (spec : Bool) : Option UInt8 :=
+  if names = "-" then some 0 else
+  (names.splitOn "+").foldl (fun acc n =>
+    match acc with
+    | none => none
+    | some b =>
+      let v : Option UInt8 :=
+        if n = "UP" then some (if spec then Spec.bitUP else Generated.Flags.UP)
+        else if n = "UV" then some (if spec then Spec.bitUV else Generated.Flags.UV)
+        else if n = "BE" then some (if spec then Spec.bitBE else Generated.Flags.BE)
+        else if n = "BS" then some (if spec then Spec.bitBS else Generated.Flags.BS)
+        else if n = "AT" then some (if spec then Spec.bitAT else Generated.Flags.AT)
+        else if n = "ED" then some (if spec then Spec.bitED else Generated.Flags.ED)
+        else none
+      v.map (fun x => b ||| x)) (some 0)
+
+def namesOf (b : UInt8) (spec : Bool) : String :=
+  let tbl : List (String × UInt8) :=
+    if spec then [("UP", Spec.bitUP), ("UV", Spec.bitUV), ("BE", Spec.bitBE), ("BS", Spec.bitBS), ("AT", Spec.bitAT), ("ED", Spec.bitED)]
+    else [("UP", Generated.Flags.UP), ("UV", Generated.Flags.UV), ("BE", Generated.Flags.BE), ("BS", Generated.Flags.BS), ("AT", Generated.Flags.AT), ("ED", Generated.Flags.ED)]
+  let ns := (tbl.filter (fun e => b &&& e.2 = e.2 && e.2 ≠ 0)).map (·.1)
+  if ns.isEmpty then "-" else "+".intercalate ns
+
 def showDec (r : Except DecErr AuthData) : String :=
   match r with
   | .error _ => "err"
@@ -34,7 +58,22 @@ def showDec (r : Except DecErr AuthData) : String :=
       | none => "NONE"
       | some c => s!"{hexField c.aaguid}:{hexField c.credId}:{hexField c.key}"
     let ext := match a.ext with | none => "NONE" | some e => hexField e
-    s!"{hexField a.rpIdHash}/{a.flags.toNat}/{(a.counter.getD 0)}/{acd}/{ext}"
+    s!"{hexField a.rpIdHash}/{a.flags.toNat}:{namesOf a.flags false}/{(a.counter.getD 0)}/{acd}/{ext}"
+
+/-- for an accepted decode: the flag names reported must be those of the WebAuthn bit positions of byte 32 -/
+def namesOk (v : Bytes) (impl : String) : Bool :=
+  match impl.splitOn "/" with
+  | _ :: fl :: _ =>
+    match fl.splitOn ":" with
+    | [_, names] => names == namesOf (v.getD 32 0) true
+    | _ => false
+  | _ => false
+
+def decVerdict (v : Bytes) (impl : String) : String :=
+  if impl = "panic" then "fail:panic"
+  else if Spec.mustReject v then (if impl = "err" then "ok" else "fail:must-reject-input-accepted")
+  else if impl = "err" then "na"
+  else if namesOk v impl then "ok" else "fail:decoded-flag-names-differ-from-webauthn-bit-positions"
 
 def step (op : List String) (impl : String) : String :=
   match op with
@@ -46,9 +85,9 @@ def step (op : List String) (impl : String) : String :=
       let want := if (UInt8.ofNat n) &&& Spec.reserved = 0 then "ok" else "none"
       model ++ "\t" ++ (if impl = want then "ok" else "fail:flag-byte-acceptance-differs-from-webauthn-bits")
   | ["ad.rt", rp, ctr, u, acd, ext] =>
-    match bytesOfHex rp, (if ctr = "NONE" then some none else ctr.toNat?.map some), u.toNat?, parseAcd acd, optBytes ext with
-    | some rp, some ctr, some u, some acd, some ext =>
-      let a0 := (AuthData.new rp ctr).setFlags (UInt8.ofNat u)
+    match bytesOfHex rp, (if ctr = "NONE" then some none else ctr.toNat?.map some), flagByte u false, flagByte u true, parseAcd acd, optBytes ext with
+    | some rp, some ctr, some um, some us, some acd, some ext =>
+      let a0 := (AuthData.new rp ctr).setFlags um
       let built : Option AuthData := match acd with
         | none => some (a0.setExt ext)
         | some (ag, cid, key) => (Acd.new ag cid key).map (fun c => (a0.setAcd c).setExt ext)
@@ -59,34 +98,30 @@ def step (op : List String) (impl : String) : String :=
           | some bs => s!"enc={hexField bs} dec={showDec (AuthData.fromSlice skip validKey bs)}"
       -- Spec: layout and round trip (absent counter reads back as zero); ids above 65535 refused
       let tooLong := match acd with | some (_, cid, _) => decide (cid.length > 65535) | none => false
-      let userFlags := (UInt8.ofNat u) ||| Spec.bitBE ||| Spec.bitBS   -- the constructor's default is BE|BS
+      let userFlags := us ||| Spec.bitBE ||| Spec.bitBS   -- the constructor's default is BE|BS
       let specEnc := Spec.layout rp userFlags ctr acd ext
       let flagsByte := specEnc.getD 32 0
       let acdS := match acd with | none => "NONE" | some (ag, cid, key) => s!"{hexField ag}:{hexField cid}:{hexField key}"
       let extS := match ext with | none => "NONE" | some e => hexField e
-      let specObs := s!"enc={hexField specEnc} dec={hexField (Sha256.sha256 rp)}/{flagsByte.toNat}/{ctr.getD 0}/{acdS}/{extS}"
+      let specObs := s!"enc={hexField specEnc} dec={hexField (Sha256.sha256 rp)}/{flagsByte.toNat}:{namesOf flagsByte true}/{ctr.getD 0}/{acdS}/{extS}"
       let verdict :=
         if tooLong then (if impl = "iderr" then "ok" else "fail:credential-id-over-65535-not-refused")
         else if impl = specObs then "ok" else "fail:encoding-or-roundtrip-differs-from-webauthn-layout"
       model ++ "\t" ++ verdict
-    | _, _, _, _, _ => "bad-op\tna"
+    | _, _, _, _, _, _ => "bad-op\tna"
   | ["ad.dec", h] =>
     match bytesOfHex h with
     | none => "bad-op\tna"
     | some v =>
       let model := showDec (AuthData.fromSlice skip validKey v)
-      let verdict := if Spec.mustReject v then (if impl = "err" then "ok" else "fail:must-reject-input-accepted") else "na"
-      model ++ "\t" ++ verdict
+      model ++ "\t" ++ decVerdict v impl
   | ["ad.decx", h] =>
     -- corrupted encodings: judged by the Spec only (what third-party CBOR code makes of a corrupted but
     -- complete item is outside the property); the model column echoes the implementation
     match bytesOfHex h with
     | none => "bad-op\tna"
     | some v =>
-      let verdict :=
-        if impl = "panic" then "fail:panic"
-        else if Spec.mustReject v then (if impl = "err" then "ok" else "fail:must-reject-input-accepted") else "na"
-      impl ++ "\t" ++ verdict
+      impl ++ "\t" ++ decVerdict v impl
   | _ => "bad-op\tna"
 
 end PasskeyVerif.Driver.AuthData
